@@ -25,7 +25,8 @@ def gen_separated(rng, n, m, mag):
     Q = Q[:, :r]
     V = rand_orth(rng, m)[:, :r]
     X = (Q * (np.array(s) * mag)) @ V.T
-    off = np.array([rng.choice((0.0, rng.uniform(-10, 10))) * mag for _ in range(m)])
+    big = rng.choice((1.0, 1.0, 1.0, 1e5))          # now and then offsets that dwarf the spread
+    off = np.array([rng.choice((0.0, rng.uniform(-10, 10))) * mag * big for _ in range(m)])
     return X + off, np.array(s) * mag
 
 
@@ -52,7 +53,7 @@ def run(ck, rng, tier):
         if c < 6:      # every run: wide matrices seen by many threads (more threads than rows)
             n, m, nproc = rng.randint(4, 9), rng.randint(12, 22), rng.choice((8, 16))
         scaling = rng.choice((0, 0, 1, 2, 3, 4, 5, -1))
-        mag = rng.choice((1.0, 1.0, 30.0, 0.05, 1e-3)) if scaling in (0, -1) else rng.choice((1.0, 30.0, 0.05))
+        mag = rng.choice((1.0, 1.0, 30.0, 0.05, 1e-3, 1e-5, 1e-6, 1e4)) if scaling in (0, -1) else rng.choice((1.0, 30.0, 0.05))
         X, s = gen_separated(rng, n, m, mag)
         npc = rng.randint(1, min(3, len(s)))
         # the property presumes rank >= number of components AFTER preprocessing (a column whose scale
